@@ -24,6 +24,11 @@ CHECKS = {
     note="Not proved: recurrences = integrals (literature); conditioning and quadrature accuracy in doubles (recorded findings tailcut-left-end, closed-form-conditioning, estimate-not-a-bound, quadrature-premature-acceptance). Dawson and erf are external functions whose values the harness hands to the model. Trusted: Lean kernel, the four translators, harness/corr_radial.cpp, oracle/radial.py and oracle/radial_cases.py (mpmath).",
     technique="translator-regenerated Lean model, bitwise correspondence at Float, mpmath oracle with trace-predicate known findings; Lean decide on dispatch tables",
     design="3/C12"),
+ "C13": dict(
+    text="PARTIAL. The Lean model of uklm/Pijk/makeW/makeOmega (entry by entry, including which of the four overlapping symmetric stores of makeOmega writes last) and of realSphericalHarmonics, run at Float, agrees BIT FOR BIT with the real tables: every stored entry for small (LB,LE), parity-aware samples (tens of thousands, mostly non-zero entries) for the large ones up to (5,5), harmonics at poles, axes and random directions up to l = 12. Lean proves parity/structure facts of the model. That the entries ARE the sphere integrals is checked on the implementation against an independent product quadrature (Gauss-Legendre x trapezoid, scipy Legendre functions; exact for these polynomial degrees) at 1e-12, together with orthonormality of the evaluator's harmonics.",
+    note="Not proved in Lean: identification of the tables with the sphere integrals (the monomial formula is classical). Trusted: Lean kernel, harness/corr_angular.cpp, numpy/scipy.",
+    technique="bitwise model/implementation correspondence at Float + independent sphere-quadrature oracle; Lean structural lemmas",
+    design="3/C13"),
  "C14": dict(
     text="PARTIAL. Lean theorems (Props/C14.lean) on the structure of the evaluators: the regimes partition the arguments; the table row exists and the Taylor step is at most half a spacing; the all-orders and the single-order evaluator compute the same thing in the large-argument and table regimes and known closed forms (which differ for l>=2, below 1e-7^l) in the small regime; both large-argument loops are the asymptotic polynomial; the derivative tables use the coefficients of the Bessel recurrence; the Taylor remainder budget holds for TAYLOR_CUT and the table size as they are now (constants re-extracted every run). The Lean model, run at Float in the compiled driver, agrees BIT FOR BIT with the real BesselFunction on table rows, both evaluators and upper_bound at grid nodes, midpoints, both sides of 1e-7 and 16 and random arguments for l <= 15 - so the theorems are about the function the code computes. Accuracy itself (abs 1e-12 against mpmath's I_{l+1/2} at 40 digits) is checked on the implementation, not proved.",
     note="Not proved: that the series/recurrence/asymptotic form ARE e^{-z} i_l(z) and the derivative bound in the budget (Mathlib has no Bessel functions); rounding. Trusted: Lean kernel, translate/constants.py, harness/corr_bessel.cpp, oracle/bessel.py (mpmath), the platform libm's exp being the same in both drivers.",
